@@ -77,6 +77,7 @@ DoCall(c) ==
     [] op = "Preserve"     -> IF CanPreserve(c) THEN Preserve(c) ELSE FALSE
     [] op = "CallPreserved" -> IF CanCallPreserved(c, Ev.i) THEN CallPreserved(c, Ev.i) ELSE FALSE
     [] op = "Spawn"        -> Spawn(c, Ev.c2, Ev.kind)
+    [] op = "LeaveElsewhere" -> IF CanLeaveElsewhere(c, Ev.a) THEN LeaveElsewhere(c, Ev.a, Ev.kind) ELSE FALSE
     [] op = "AddDests"     -> AddDests(c, ToSet(Ev.S))
     [] op = "RemoveDest"   -> RemoveDest(c, Ev.d)
     [] op = "AddGlobal"    -> AddGlobal(c, Ev.f, Ev.v)
@@ -96,6 +97,7 @@ WellFormedCall(c) ==
        [] op = "CallPreserved" -> CanCallPreserved(c, Ev.i)
        [] op = "AddSuccess" -> Ev.a \in DOMAIN acts /\ ~acts[Ev.a].fin /\ Ev.f \notin acts[Ev.a].succ
        [] op = "Spawn" -> ~born[Ev.c2]
+       [] op = "LeaveElsewhere" -> CanLeaveElsewhere(c, Ev.a)
        [] op = "AddDests" -> ToSet(Ev.S) \cap Range(dests) = {}
        [] op = "RemoveDest" -> Ev.d \in Range(dests)
        [] op = "AddGlobal" -> <<Ev.f, Ev.v>> \notin gf
@@ -146,7 +148,7 @@ TRet ==
      ELSE IF Ev.v = "raised" /\ call.v = "ok" THEN Flag("call_raised:" \o (IF work # <<>> THEN "pending" ELSE "clean") \o ":" \o lastop)
      ELSE IF work # <<>> THEN (IF Top.t = "send" THEN Flag("missing_delivery:" \o KindOf(Top.m) \o (IF Top.done = {} THEN ":none" ELSE ":some"))
                                ELSE Flag("serializer_not_called"))
-     ELSE IF Ev.v # call.v
+     ELSE IF Ev.v # call.v /\ lastop # "LeaveElsewhere"      \* refusing or completing a foreign leave: either way c's context must stand
           THEN (IF call.v = "ok" THEN Flag("call_raised:" \o Ev.v \o ":" \o lastop) ELSE Flag("exception_not_propagated:" \o Ev.v))
      ELSE IF Ev.cur # cur[call.c] THEN Flag("current_action_after:" \o lastop)
      ELSE Return /\ Step /\ UNCHANGED <<umap, lastop>>
